@@ -250,16 +250,15 @@ def r14_3(ctx):
             ctx.check(sk == [want[key]], "DirectCollocation %s constraint scale" % {"ode": "collocation", "alg": "algebraic", "D": "continuity"}[key], detail="dynamics scale",
                       expected="scale=" + want[key], found=str(sk), fi=f, node=c)
     # the aggregate scale vectors are assembled from the per-symbol scales in declaration order
-    for prop, lst in (("_scale_x", "self.states"), ("_scale_z", "self.algebraics"), ("_scale_u", "self.controls")):
+    for prop, lst, tab in (("_scale_x", "self.states", "_scale"), ("_scale_z", "self.algebraics", "_scale"), ("_scale_u", "self.controls", "_scale"), ("_scale_der_x", "self.states", "_scale_der")):
         g = prog.own_method("Stage", prop)
         rets = [ast.unparse(r.value) for r in walk_no_nested(g.node) if isinstance(r, ast.Return)]
         v = rets[0] if rets else ""
-        ok = len(rets) == 1 and v.startswith("vvcat([self._scale[") and v.endswith("in %s])" % lst)
-        ctx.check(ok, "Stage.%s stacks the scales of %s in order" % (prop, lst), detail="scale vector order", expected="vvcat([self._scale[s] for s in %s])" % lst, found=v, fi=g)
-    g = prog.own_method("Stage", "_scale_der_x")
-    rets = [ast.unparse(r.value) for r in walk_no_nested(g.node) if isinstance(r, ast.Return)]
-    ctx.check(rets == ["vvcat([self._scale_der[x] for x in self.states])"], "Stage._scale_der_x stacks the derivative scales of the states in order", detail="scale vector order",
-              expected="vvcat([self._scale_der[x] for x in self.states])", found=rets, fi=g)
+        import re
+        mm = re.fullmatch(r"vvcat\(\[self\.%s\[(\w+)\] for (\w+) in %s\]\)" % (re.escape(tab), re.escape(lst)), v)
+        ok = len(rets) == 1 and mm is not None and mm.group(1) == mm.group(2)
+        ctx.check(ok, "Stage.%s stacks the %s of %s in order" % (prop, "scales" if tab == "_scale" else "derivative scales (set_der(.., scale=))", lst), detail="scale vector order / table",
+                  expected="vvcat([self.%s[s] for s in %s])" % (tab, lst), found=v, fi=g)
 
 
 READBACK = [("Stage", "sample"), ("Stage", "_sample"), ("Stage", "_grid_control"), ("Stage", "_grid_integrator"), ("Stage", "_grid_integrator_roots"),
